@@ -6,7 +6,7 @@ package main
 //
 // It regenerates one Lean file per Go package on every run (lean/Generated/BoundGo.lean for the
 // root package, ClipGo.lean, PlanarGo.lean, LengthGo.lean, QuadtreeGo.lean, SimplifyGo.lean,
-// SmartclipGo.lean).  Every definition is polymorphic in `α` and takes the SAME explicit instance
+// SmartclipGo.lean); they import Orb.LoopForms (the generic loop forms and their lemmas).  Every definition is polymorphic in `α` and takes the SAME explicit instance
 // arguments the models take (`[Add α] [Sub α] … [LT α] [DecidableLT α] …`).  The theorems in
 // OrbProofs/C06Tie.lean, C07Tie.lean, C08Tie.lean, C09Tie.lean, C10Tie.lean, C11Tie.lean,
 // C12Tie.lean, C16Tie.lean prove each regenerated definition equal to the hand-written model
@@ -20,21 +20,44 @@ package main
 //
 //   types   float64 -> α, int / uint8 / Orientation -> Nat or Int (per function), bool -> Bool,
 //           orb.Point -> Pt α, orb.Bound -> Bound α, orb.LineString / Ring / MultiPoint -> List (Pt α),
-//           orb.DistanceFunc -> Pt α → Pt α → α, multiple results -> a product
+//           orb.Polygon / MultiLineString / []Ring / []LineString -> List (List (Pt α)),
+//           orb.MultiPolygon / []Polygon -> List (List (List (Pt α))) (the Go name of a slice type is kept: it
+//           selects the method set), orb.DistanceFunc -> Pt α → Pt α → α, multiple results -> a product
 //   exprs   integral literals, variables, package constants with an integer value, p[0] p[1],
-//           b.Min b.Max, xs[i] (= xs.getD i ⟨0,0⟩: the run-time bounds check is not part of the
-//           translation), len(xs), Point{…} Bound{…}, + - * / on floats, + - | & on ints, unary - !,
-//           comparisons, && || (a chain of the same operator is emitted flat), == != on floats
-//           (BEq) / ints / points, math.Sqrt (-> the explicit parameter `sqrt`, as in the models),
-//           float64(int) (-> Nat.cast), math.Min / math.Max (-> min / max), math.Abs (-> `fabs`), math.Nextafter(x, math.Inf(1))
-//           (-> the explicit parameter `next`), calls of functions translated earlier
-//   stmts   return, := , = , op= , ++ , p[0] op= e, b.Min[0] op= e, tuple assignment, var decls,
+//           b.Min b.Max, xs[i] (= xs.getD i zero: the run-time bounds check is not part of the
+//           translation — except in "res" functions, see below), len(xs), Point{…} Bound{…} (keyed or
+//           positional) Polygon{r}, + - * / on floats, + - | & on ints, unary - !, comparisons, && ||
+//           (a chain of the same operator is emitted flat), == != on floats (BEq) / ints / points,
+//           math.Sqrt (-> the explicit parameter `sqrt`, as in the models), float64(int) (-> Nat.cast),
+//           math.Min / math.Max (-> min / max), math.Abs (-> `fabs`), math.Nextafter(x, math.Inf(1))
+//           (-> the explicit parameter `next`), math.Inf(1) (-> the explicit parameter `inf`), the
+//           package variable emptyBound (-> the explicit parameter `eb`), conversions between slice
+//           types of the same shape, append(xs, v) / append(xs, ys...) (-> ++: lists are values),
+//           calls of functions and methods translated earlier, calls of the functions a spec declares
+//           opaque (`abstract`: they become explicit function parameters), nil as a slice result
+//           (-> []), and xs == nil / xs != nil (-> isEmpty) ONLY for a variable the translator knows
+//           to be nil exactly when it is empty (declared by `var`, by a call of a translated function
+//           all of whose results are such, by a non-empty literal, or after `if len(xs) == 0 { return }`,
+//           and never assigned anything but append(xs, …) / nil)
+//   stmts   return, := (a name of an enclosing scope is shadowed: the new variable gets a primed Lean
+//           name), = , op= , ++ , p[0] op= e, b.Min[0] op= e, tuple assignment, a, b := f(…), var decls,
 //           if / else-if / else (returning, assigning, or mixed: a mixed `if` becomes a local join
 //           point `k_n`), if with an init statement, switch on an int with returning cases,
-//           panic(...) (-> `none` or `.panic msg`, per function), and the index loops
-//           `for i := lo; i < len(xs)-k; i++ { … xs[i+c] … xs[i+c+1] … }` that visit consecutive
-//           pairs, which become the structural recursion `foldPairs` over `xs.drop (lo+c)`, and
-//           `for _, x := range xs { … }` (-> List.foldl); no break / continue / return inside loops.
+//           panic(...) (-> `none` or `.panic msg`, per function), and the loops
+//             for i := lo; i < len(xs)-k; i++ { … xs[i+c] … }             every element of xs.drop (lo+c)
+//             for i := lo; i < len(xs)-k; i++ { … xs[i+c] … xs[i+c+1] … } every consecutive pair of it
+//             for _, x := range xs { … }                                   every element
+//             for i := range xs { … } / for i, x := range xs { … }         over List.range xs.length
+//           A body without `return` becomes List.foldl / foldPairs over the tuple of the outer
+//           variables it assigns; a body that returns (or, in a "res" function, may panic) becomes
+//           foldlRet / foldPairsRet of Orb.LoopForms (`Sum.inl r` = return r).  `continue` is
+//           supported; break, labels, nested loops, closures are not.
+//   "res"   functions (panicMode "res") are translated WITH Go's run-time checks: xs[i] outside the
+//           loop forms is preceded by `if i < xs.length then … else .panic "index out of range [i]
+//           with length n"`, a call of another "res" function is matched on (`.ok v` continues); such
+//           an operation on the right of && / || is refused.
+//   typeCase: one case of a function's top-level `switch g := g.(type)` can be translated on its own,
+//           the switch variable being a parameter of the case's type.
 
 import (
 	"encoding/json"
@@ -64,12 +87,18 @@ const (
 	fkUFloat // untyped float constant
 	fkDistFn // orb.DistanceFunc
 	fkZ      // orb.Orientation (an int8 with negative values): Lean Int
+	fkPtss   // []Ring, Polygon, MultiLineString: List (List (Pt α))
+	fkPtsss  // []Polygon, MultiPolygon: List (List (List (Pt α)))
 	fkBad
 )
 
 type fty struct {
-	k  fkind
-	el []fty
+	k     fkind
+	el    []fty
+	name  string // Go name of a slice type (Ring, LineString, MultiPoint, Polygon, …, "[]Ring"): selects the method set
+	ln    string // (entries of ftrans.vars) Lean name of the variable, "" = lid(Go name)
+	depth int    // (entries of ftrans.vars) scope depth of the declaration
+	nie   bool   // a slice value known to be nil if and only if it is empty (then `x == nil` is `x.isEmpty`)
 }
 
 var (
@@ -85,13 +114,17 @@ var (
 
 // ffn describes one Go function the translator is asked for.
 type ffn struct {
-	rel, recv, name string // Go package dir (relative to the repo root), receiver type, name
-	lean            string // name of the Lean definition
-	intTy           string // Lean type of Go's int in this function: "Nat" (default) or "Int"
-	panicMode       string // "" (no panic allowed), "option" (panic = none), "res" (panic = .panic msg)
-	prefixUntil     string // translate only the leading statements before the first one that mentions this identifier …
-	prefixRet       []string
-	dropParams      []string // … returning these variables; these parameters are omitted
+	rel, recv, name string   // Go package dir (relative to the repo root), receiver type, name
+	lean            string   // name of the Lean definition
+	intTy           string   // Lean type of Go's int in this function: "Nat" (default) or "Int"
+	panicMode       string   // "" (no panic allowed), "option" (panic = none), "res" (panic = .panic msg)
+	errTy           string   // "res": the Lean type of the error component of `Res` ("" = String)
+	abstract        []string // functions of the same package that stay opaque: explicit function parameters
+	typeCase        string   // translate the body of this case of the function's top-level `switch g := g.(type)`: the switch
+	// variable becomes a parameter of the case's type, in place of the (dropped) interface parameter
+	prefixUntil string // translate only the leading statements before the first one that mentions this identifier …
+	prefixRet   []string
+	dropParams  []string // … returning these variables; these parameters are omitted
 }
 
 type fsig struct {
@@ -101,6 +134,7 @@ type fsig struct {
 	extras []string
 	fn     *ffn
 	file   string
+	nie    bool // the (slice) result is nil if and only if it is empty
 }
 
 var fsigs = map[string]*fsig{}
@@ -136,6 +170,19 @@ var floatPkgs = []fpkgSpec{
 		{recv: "Point", name: "Equal", lean: "pointEqual"},
 		{recv: "Ring", name: "Closed", lean: "ringClosed"},
 		{recv: "Ring", name: "Orientation", lean: "ringOrientation"},
+		// the slice kinds: loops over the points / rings / polygons
+		{recv: "MultiPoint", name: "Bound", lean: "multiPointBound"},
+		{recv: "MultiPoint", name: "Equal", lean: "multiPointEqual"},
+		{recv: "LineString", name: "Bound", lean: "lineStringBound"},
+		{recv: "LineString", name: "Equal", lean: "lineStringEqual"},
+		{recv: "Ring", name: "Bound", lean: "ringBound"},
+		{recv: "Ring", name: "Equal", lean: "ringEqual"},
+		{recv: "Polygon", name: "Bound", lean: "polygonBound"},
+		{recv: "Polygon", name: "Equal", lean: "polygonEqual"},
+		{recv: "MultiLineString", name: "Bound", lean: "multiLineStringBound"},
+		{recv: "MultiLineString", name: "Equal", lean: "multiLineStringEqual"},
+		{recv: "MultiPolygon", name: "Bound", lean: "multiPolygonBound"},
+		{recv: "MultiPolygon", name: "Equal", lean: "multiPolygonEqual"},
 	}},
 	{file: "ClipGo", rel: "clip", imports: []string{"BoundGo"}, fns: []ffn{
 		{name: "bitCode", lean: "bitCode"},
@@ -143,6 +190,10 @@ var floatPkgs = []fpkgSpec{
 		{name: "intersect", lean: "intersect", panicMode: "option"},
 		{name: "clampToBound", lean: "clampToBound"},
 		{name: "Bound", lean: "clipBound"},
+		{name: "MultiPoint", lean: "clipMultiPoint"},
+		{name: "Ring", lean: "clipRing", abstract: []string{"ring"}},
+		{name: "Polygon", lean: "clipPolygon"},
+		{name: "MultiPolygon", lean: "clipMultiPolygon"},
 	}},
 	{file: "PlanarGo", rel: "planar", imports: []string{"BoundGo"}, fns: []ffn{
 		{name: "Distance", lean: "distance"},
@@ -153,9 +204,22 @@ var floatPkgs = []fpkgSpec{
 		{name: "multiPointCentroid", lean: "multiPointCentroid"},
 		{name: "ringCentroidArea", lean: "ringCentroidArea"},
 		{name: "rayIntersect", lean: "rayIntersect"},
+		{name: "RingContains", lean: "ringContains", panicMode: "res", errTy: "Unit"},
+		{name: "PolygonContains", lean: "polygonContains", panicMode: "res", errTy: "Unit"},
+		{name: "MultiPolygonContains", lean: "multiPolygonContains", panicMode: "res", errTy: "Unit"},
+		{name: "lineStringCentroidDist", lean: "lineStringCentroidDist"},
+		{name: "multiLineStringCentroid", lean: "multiLineStringCentroid"},
+		{name: "polygonCentroidArea", lean: "polygonCentroidArea"},
+		{name: "multiPolygonCentroidArea", lean: "multiPolygonCentroidArea"},
 	}},
 	{file: "LengthGo", rel: "internal/length", imports: []string{"BoundGo"}, fns: []ffn{
 		{name: "lineStringLength", lean: "lineStringLength"},
+		{name: "polygonLength", lean: "polygonLength"},
+		{name: "Length", lean: "lengthLineString", typeCase: "orb.LineString", dropParams: []string{"g"}},
+		{name: "Length", lean: "lengthMultiLineString", typeCase: "orb.MultiLineString", dropParams: []string{"g"}},
+		{name: "Length", lean: "lengthRing", typeCase: "orb.Ring", dropParams: []string{"g"}},
+		{name: "Length", lean: "lengthPolygon", typeCase: "orb.Polygon", dropParams: []string{"g"}},
+		{name: "Length", lean: "lengthMultiPolygon", typeCase: "orb.MultiPolygon", dropParams: []string{"g"}},
 	}},
 	{file: "QuadtreeGo", rel: "quadtree", imports: []string{"BoundGo", "PlanarGo"}, fns: []ffn{
 		{name: "childIndex", lean: "childIndex"},
@@ -183,9 +247,136 @@ type ftrans struct {
 	nk     int // join points
 	notes  map[string]bool
 	// loop substitution: printed Go index expression -> Lean variable
-	subst   map[string]string
+	subst   map[string]fsub
 	retTys  []fty
 	inIndex bool // inside xs[…]: a negative index is a Go panic, which the translation does not cover anyway
+	depth   int  // scope depth (0 = the function's top-level block)
+	body    ast.Node
+	// loops
+	loopK     string // inside a loop body: the Lean term for `continue` ("" = not in a loop)
+	inRetLoop bool   // inside the body of a loop that may return: `return e` is `Sum.inl e`
+	plainLoop bool   // inside the body of a loop translated as a plain fold …
+	plainPend bool   // … a panicking operation turned up: the loop has to be redone in the returning form
+	// "res" functions: the panicking operations (index checks, calls of panicking functions) of the
+	// statement being translated, in evaluation order
+	pending  []fpend
+	nv       int
+	safeIdx  map[string]bool // printed index expressions known to be in range (xs[i] under `for i := range xs`)
+	scopeEnd map[*ast.EmptyStmt]bool
+	// slices: nil is the empty list.  `x == nil` can only be translated for a variable that is nil iff
+	// empty; nieTrust: the variables no assignment can make otherwise (only x = append(x, …), x = nil)
+	nieTrust map[string]bool
+	retNie   bool
+}
+
+type fsub struct {
+	v  string
+	ty fty
+}
+
+// fpend: one panicking operation hoisted in front of the statement it occurs in
+type fpend struct {
+	guard, msg string // if guard then … else .panic msg
+	call, v    string // match call with | .ok v => … | .err e_ => .err e_ | .panic m_ => .panic m_
+}
+
+// ln: the Lean name of a Go variable
+func (t *ftrans) ln(name string) string {
+	if ty, ok := t.vars[name]; ok && ty.ln != "" {
+		return ty.ln
+	}
+	return lid(name)
+}
+
+func (t *ftrans) lns(names []string) []string {
+	out := make([]string, len(names))
+	for i, n := range names {
+		out[i] = t.ln(n)
+	}
+	return out
+}
+
+// declare a variable introduced by := / var / range.  A name of an enclosing scope is shadowed: the
+// new variable gets a fresh Lean name (continuations pasted later name the outer variable).  Shadowing
+// is accepted only where the translator restores the scope afterwards (if-branches, loop bodies).
+func (t *ftrans) declare(name string, ty fty) string {
+	if name == "_" {
+		return "_"
+	}
+	ty.depth, ty.ln = t.depth, ""
+	if _, clash := extraTypes[lid(name)]; clash {
+		t.fail("the variable %s has the name of an explicit parameter", name)
+		return lid(name)
+	}
+	if old, ok := t.vars[name]; ok {
+		if old.depth >= t.depth {
+			t.fail("declaration shadows %s", name)
+			return lid(name)
+		}
+		// (a prime cannot occur in a Go identifier, nor in the names the translator makes up)
+		ty.ln = lid(name) + "'"
+		if old.ln != "" {
+			ty.ln = old.ln + "'"
+		}
+	}
+	t.vars[name] = ty
+	return t.ln(name)
+}
+
+func (t *ftrans) resTy() string {
+	if t.spec.errTy != "" {
+		return t.spec.errTy
+	}
+	return "String"
+}
+
+// retLean: the Lean type of the function's result
+func (t *ftrans) retLean() string {
+	var ret fty
+	if len(t.retTys) == 1 {
+		ret = t.retTys[0]
+	} else {
+		ret = fty{k: fkTuple, el: t.retTys}
+	}
+	rt := t.leanTy(ret)
+	switch t.spec.panicMode {
+	case "option":
+		rt = "Option (" + rt + ")"
+	case "res":
+		rt = "Res " + t.resTy() + " (" + rt + ")"
+	}
+	return rt
+}
+
+// exit: a value the function returns with (a `return`, a panic), at the current position
+func (t *ftrans) exit(s string) string {
+	if t.inRetLoop {
+		return "Sum.inl " + par(s)
+	}
+	return s
+}
+
+func (t *ftrans) take() []fpend {
+	p := t.pending
+	t.pending = nil
+	return p
+}
+
+// wrap puts the panicking operations of a statement in front of its translation
+func (t *ftrans) wrap(pend []fpend, out string) string {
+	if len(pend) > 0 && t.plainLoop {
+		t.plainPend = true
+	}
+	for i := len(pend) - 1; i >= 0; i-- {
+		p := pend[i]
+		if p.guard != "" {
+			out = "if " + p.guard + " then\n" + indentAll(out, 2) + "\nelse\n  " + t.exit(".panic "+p.msg)
+		} else {
+			out = "(match " + p.call + " with\n| .ok " + p.v + " =>\n" + indentAll(out, 4) + "\n| .err e_ => " + t.exit(".err e_") +
+				"\n| .panic m_ => " + t.exit(".panic m_") + ")"
+		}
+	}
+	return out
 }
 
 func (t *ftrans) fail(format string, a ...interface{}) string {
@@ -200,6 +391,55 @@ func (t *ftrans) intTy() string {
 		return t.spec.intTy
 	}
 	return "Nat"
+}
+
+func isList(ty fty) bool { return ty.k == fkPts || ty.k == fkPtss || ty.k == fkPtsss }
+
+// the named slice types of package orb
+var listNames = map[string]fkind{"LineString": fkPts, "Ring": fkPts, "MultiPoint": fkPts,
+	"Polygon": fkPtss, "MultiLineString": fkPtss, "MultiPolygon": fkPtsss}
+
+// elemTy: the type of xs[i]
+func elemTy(ty fty) fty {
+	sub := ""
+	switch ty.name {
+	case "Polygon":
+		sub = "Ring"
+	case "MultiLineString":
+		sub = "LineString"
+	case "MultiPolygon":
+		sub = "Polygon"
+	default:
+		if n := strings.TrimPrefix(ty.name, "[]"); n != ty.name {
+			sub = n
+		}
+	}
+	switch ty.k {
+	case fkPts:
+		return tP
+	case fkPtss:
+		if listNames[sub] == fkPts {
+			return fty{k: fkPts, name: sub}
+		}
+		return fty{k: fkPts}
+	case fkPtsss:
+		if listNames[sub] == fkPtss {
+			return fty{k: fkPtss, name: sub}
+		}
+		return fty{k: fkPtss}
+	}
+	return tBad
+}
+
+// zeroOf: the Lean text of Go's zero value of the type (what xs.getD falls back to)
+func zeroOf(ty fty) string {
+	switch ty.k {
+	case fkPt:
+		return "⟨0, 0⟩"
+	case fkPts, fkPtss, fkPtsss:
+		return "[]"
+	}
+	return ""
 }
 
 func (t *ftrans) leanTy(ty fty) string {
@@ -218,6 +458,10 @@ func (t *ftrans) leanTy(ty fty) string {
 		return "Bound α"
 	case fkPts:
 		return "List (Pt α)"
+	case fkPtss:
+		return "List (List (Pt α))"
+	case fkPtsss:
+		return "List (List (List (Pt α)))"
 	case fkDistFn:
 		return "Pt α → Pt α → α"
 	case fkTuple:
@@ -231,6 +475,25 @@ func (t *ftrans) leanTy(ty fty) string {
 }
 
 func fgoTy(e ast.Expr) fty {
+	if at, ok := e.(*ast.ArrayType); ok {
+		if at.Len != nil {
+			return tBad
+		}
+		el := fgoTy(at.Elt)
+		switch el.k {
+		case fkPt:
+			return fty{k: fkPts, name: "[]Point"}
+		case fkPts:
+			if el.name != "" {
+				return fty{k: fkPtss, name: "[]" + el.name}
+			}
+		case fkPtss:
+			if el.name != "" {
+				return fty{k: fkPtsss, name: "[]" + el.name}
+			}
+		}
+		return tBad
+	}
 	n, ptr := typeName(e)
 	if ptr {
 		return tBad // a pointer: aliasing is outside the translated subset
@@ -248,8 +511,8 @@ func fgoTy(e ast.Expr) fty {
 		return tP
 	case "Bound":
 		return tBd
-	case "LineString", "Ring", "MultiPoint":
-		return tPs
+	case "LineString", "Ring", "MultiPoint", "Polygon", "MultiLineString", "MultiPolygon":
+		return fty{k: listNames[n], name: n}
 	case "DistanceFunc":
 		return fty{k: fkDistFn}
 	}
@@ -291,10 +554,11 @@ var leanReserved = map[string]bool{"from": true, "to": true, "at": true, "fun": 
 	"extends": true, "Type": true, "Prop": true, "Sort": true, "set_option": true, "attribute": true, "local": true,
 	"scoped": true, "noncomputable": true, "opaque": true, "axiom": true, "unsafe": true, "sorry": true, "admit": true,
 	"α": true, "sqrt": true, "next": true, "min": true, "max": true, "fabs": true, "ptEq": true, "foldPairs": true, "decide": true,
-	"some": true, "none": true, "p_": true, "q_": true}
+	"some": true, "none": true, "p_": true, "q_": true, "x_": true, "ret_": true, "e_": true, "m_": true,
+	"eb": true, "inf": true, "foldlRet": true, "foldPairsRet": true}
 
 func lid(name string) string {
-	if leanReserved[name] || strings.HasPrefix(name, "k_") {
+	if leanReserved[name] || strings.HasPrefix(name, "k_") || strings.HasPrefix(name, "v_") {
 		return name + "_"
 	}
 	return name
@@ -446,7 +710,7 @@ func par(s string) string {
 func (t *ftrans) expr(e ast.Expr) (string, fty) {
 	if t.subst != nil {
 		if v, ok := t.subst[src(t.pk, e)]; ok {
-			return v, tP
+			return v.v, v.ty
 		}
 	}
 	switch x := e.(type) {
@@ -472,10 +736,16 @@ func (t *ftrans) expr(e ast.Expr) (string, fty) {
 			return x.Name, tB
 		}
 		if ty, ok := t.vars[x.Name]; ok {
-			return lid(x.Name), ty
+			return t.ln(x.Name), fty{k: ty.k, el: ty.el, name: ty.name, nie: ty.nie && t.nieTrust[x.Name]}
 		}
 		if s, ty, ok := t.constant(t.pk.rel, x.Name); ok {
 			return s, ty
+		}
+		if x.Name == "emptyBound" && t.pk.rel == "." && isPkgVar(".", "emptyBound") {
+			// the package's sentinel (a variable): the explicit parameter `eb`, as in the models; its
+			// value is regenerated separately (Generated.Params.emptyBound*)
+			t.extras["eb"] = true
+			return "eb", tBd
 		}
 		return t.fail("unknown identifier %s", x.Name), tBad
 	case *ast.SelectorExpr:
@@ -493,9 +763,9 @@ func (t *ftrans) expr(e ast.Expr) (string, fty) {
 		if ty.k == fkBound {
 			switch x.Sel.Name {
 			case "Min":
-				return base + ".lo", tP
+				return par(base) + ".lo", tP
 			case "Max":
-				return base + ".hi", tP
+				return par(base) + ".hi", tP
 			}
 		}
 		return t.fail("selector %s", src(t.pk, e)), tBad
@@ -511,7 +781,7 @@ func (t *ftrans) expr(e ast.Expr) (string, fty) {
 					return par(base) + ".y", tF
 				}
 			}
-		case fkPts:
+		case fkPts, fkPtss, fkPtsss:
 			wasIn := t.inIndex
 			t.inIndex = true
 			i, ity := t.expr(x.Index)
@@ -520,8 +790,18 @@ func (t *ftrans) expr(e ast.Expr) (string, fty) {
 				if t.intTy() != "Nat" {
 					return t.fail("slice index in an Int function"), tBad
 				}
-				t.notes["index-total"] = true
-				return fmt.Sprintf("(%s.getD %s ⟨0, 0⟩)", par(base), par(i)), tP
+				el := elemTy(ty)
+				if t.spec.panicMode == "res" {
+					// Go's bounds check, made explicit
+					if !t.safeIdx[src(t.pk, e)] {
+						if !t.indexGuard(x, base, i) {
+							return "unsupported", tBad
+						}
+					}
+				} else {
+					t.notes["index-total"] = true
+				}
+				return fmt.Sprintf("(%s.getD %s %s)", par(base), par(i), zeroOf(el)), el
 			}
 		}
 		return t.fail("index %s", src(t.pk, e)), tBad
@@ -540,10 +820,15 @@ func (t *ftrans) expr(e ast.Expr) (string, fty) {
 			}
 		case fkBound:
 			f := map[string]string{}
-			for _, el := range x.Elts {
+			for i, el := range x.Elts {
 				kv, ok := el.(*ast.KeyValueExpr)
 				if !ok {
-					return t.fail("positional Bound literal"), tBad
+					// positional: the fields in the order of the struct declaration
+					fields := structFields(".", "Bound")
+					if len(fields) != 2 || len(x.Elts) != 2 {
+						return t.fail("positional Bound literal"), tBad
+					}
+					kv = &ast.KeyValueExpr{Key: ast.NewIdent(fields[i]), Value: el}
 				}
 				v, vt := t.expr(kv.Value)
 				if vt.k != fkPt {
@@ -554,16 +839,21 @@ func (t *ftrans) expr(e ast.Expr) (string, fty) {
 			if len(f) == 2 && f["Min"] != "" && f["Max"] != "" {
 				return fmt.Sprintf("(⟨%s, %s⟩ : Bound α)", f["Min"], f["Max"]), tBd
 			}
-		case fkPts:
+		case fkPts, fkPtss, fkPtsss:
+			lt := fgoTy(x.Type)
 			var els []string
 			for _, el := range x.Elts {
+				if _, kv := el.(*ast.KeyValueExpr); kv {
+					return t.fail("keyed list literal"), tBad
+				}
 				v, vt := t.expr(el)
-				if vt.k != fkPt {
+				if vt.k != elemTy(lt).k {
 					return t.fail("list literal element"), tBad
 				}
 				els = append(els, v)
 			}
-			return "[" + strings.Join(els, ", ") + "]", tPs
+			lt.nie = len(els) > 0 // (a literal is not nil)
+			return "[" + strings.Join(els, ", ") + "]", lt
 		}
 		return t.fail("composite literal %s", src(t.pk, e)), tBad
 	case *ast.UnaryExpr:
@@ -615,6 +905,124 @@ func (t *ftrans) expr(e ast.Expr) (string, fty) {
 	return t.fail("expression %s", src(t.pk, e)), tBad
 }
 
+// structFields: the field names of a struct type of the package, in declaration order
+func structFields(rel, name string) []string {
+	pk := pkgs[rel]
+	if pk == nil {
+		return nil
+	}
+	var out []string
+	for _, f := range pk.files {
+		for _, d := range f.Decls {
+			gd, ok := d.(*ast.GenDecl)
+			if !ok || gd.Tok != token.TYPE {
+				continue
+			}
+			for _, s := range gd.Specs {
+				ts, ok := s.(*ast.TypeSpec)
+				if !ok || ts.Name.Name != name {
+					continue
+				}
+				st, ok := ts.Type.(*ast.StructType)
+				if !ok {
+					return nil
+				}
+				for _, fl := range st.Fields.List {
+					for _, n := range fl.Names {
+						out = append(out, n.Name)
+					}
+				}
+			}
+		}
+	}
+	return out
+}
+
+// isPkgVar: a package-level variable of the package
+func isPkgVar(rel, name string) bool {
+	pk := pkgs[rel]
+	if pk == nil {
+		return false
+	}
+	for _, f := range pk.files {
+		for _, d := range f.Decls {
+			gd, ok := d.(*ast.GenDecl)
+			if !ok || gd.Tok != token.VAR {
+				continue
+			}
+			for _, s := range gd.Specs {
+				if vs, ok := s.(*ast.ValueSpec); ok {
+					for _, n := range vs.Names {
+						if n.Name == name {
+							return true
+						}
+					}
+				}
+			}
+		}
+	}
+	return false
+}
+
+// indexGuard ("res" functions): the run-time check of xs[i], with Go's message.  An index `a - b` is
+// in range when b ≤ a and a - b < len (the subtraction is truncated in Nat).
+func (t *ftrans) indexGuard(x *ast.IndexExpr, base, i string) bool {
+	ix := x.Index
+	for {
+		p, ok := ix.(*ast.ParenExpr)
+		if !ok {
+			break
+		}
+		ix = p.X
+	}
+	length := par(base) + ".length"
+	if b, ok := ix.(*ast.BinaryExpr); ok && b.Op == token.SUB {
+		if hasSub(b.X) || hasSub(b.Y) {
+			t.fail("index %s", src(t.pk, x))
+			return false
+		}
+		wasIn, np := t.inIndex, len(t.pending)
+		t.inIndex = true
+		l, _ := t.expr(b.X)
+		r, _ := t.expr(b.Y)
+		t.inIndex = wasIn
+		if len(t.pending) != np {
+			t.fail("index %s", src(t.pk, x))
+			return false
+		}
+		l, r = par(l), par(r)
+		t.pending = append(t.pending, fpend{guard: r + " ≤ " + l + " ∧ " + l + " - " + r + " < " + length,
+			msg: "(\"index out of range [\" ++ (if " + r + " ≤ " + l + " then toString (" + l + " - " + r + ") else \"-\" ++ toString (" + r + " - " + l +
+				")) ++ \"] with length \" ++ toString " + length + ")"})
+		return true
+	}
+	if hasSub(ix) {
+		t.fail("index %s", src(t.pk, x))
+		return false
+	}
+	t.pending = append(t.pending, fpend{guard: par(i) + " < " + length,
+		msg: "(\"index out of range [\" ++ toString " + par(i) + " ++ \"] with length \" ++ toString " + length + ")"})
+	return true
+}
+
+func hasSub(e ast.Expr) bool {
+	found := false
+	ast.Inspect(e, func(n ast.Node) bool {
+		switch b := n.(type) {
+		case *ast.BinaryExpr:
+			if b.Op == token.SUB {
+				found = true
+			}
+		case *ast.UnaryExpr:
+			if b.Op == token.SUB {
+				found = true
+			}
+		}
+		return !found
+	})
+	return found
+}
+
 func (t *ftrans) call(x *ast.CallExpr) (string, fty) {
 	fun := src(t.pk, x.Fun)
 	args := func() ([]string, []fty) {
@@ -664,9 +1072,33 @@ func (t *ftrans) call(x *ast.CallExpr) (string, fty) {
 	case "len":
 		if len(x.Args) == 1 {
 			a, ty := t.expr(x.Args[0])
-			if ty.k == fkPts && t.intTy() == "Nat" {
+			if isList(ty) && t.intTy() == "Nat" {
 				return par(a) + ".length", tI
 			}
+		}
+	case "append":
+		// append(xs, v) / append(xs, ys...): a new list value (the model's lists are values; what
+		// happens to the backing array is not part of the translation)
+		if len(x.Args) == 2 {
+			a, ty := t.expr(x.Args[0])
+			b, bt := t.expr(x.Args[1])
+			if isList(ty) {
+				t.notes["append-value"] = true
+				if x.Ellipsis.IsValid() {
+					if bt.k == ty.k {
+						// append(nil, empty...) is nil; anything else that is empty was non-nil before
+						return par(a) + " ++ " + par(b), fty{k: ty.k, name: ty.name, nie: ty.nie}
+					}
+				} else if bt.k == elemTy(ty).k {
+					return par(a) + " ++ [" + b + "]", fty{k: ty.k, name: ty.name, nie: true}
+				}
+			}
+		}
+	case "math.Inf":
+		// +Inf: the explicit parameter `inf`
+		if len(x.Args) == 1 && src(t.pk, x.Args[0]) == "1" {
+			t.extras["inf"] = true
+			return "inf", tF
 		}
 	case "float64":
 		if len(x.Args) == 1 {
@@ -678,13 +1110,16 @@ func (t *ftrans) call(x *ast.CallExpr) (string, fty) {
 				return "(" + a + " : α)", tF // Nat.cast, as in the models
 			}
 		}
-	case "LineString", "orb.LineString", "MultiPoint", "orb.MultiPoint", "Ring", "orb.Ring":
-		if len(x.Args) == 1 {
+	}
+	// a conversion between slice types of the same shape: LineString(r), orb.MultiPoint(ls), …
+	if cn := strings.TrimPrefix(fun, "orb."); listNames[cn] != 0 && ((cn == fun) == (t.pk.rel == ".")) {
+		if _, isVar := t.vars[cn]; !isVar && len(x.Args) == 1 {
 			a, ty := t.expr(x.Args[0])
-			if ty.k == fkPts {
-				return a, tPs
+			if ty.k == listNames[cn] {
+				return a, fty{k: ty.k, name: cn, nie: ty.nie}
 			}
 		}
+		return t.fail("conversion %s", src(t.pk, x)), tBad
 	}
 	if t.err != "" {
 		return "unsupported", tBad
@@ -694,9 +1129,17 @@ func (t *ftrans) call(x *ast.CallExpr) (string, fty) {
 		if ty, ok := t.vars[id.Name]; ok && ty.k == fkDistFn {
 			as, ts := args()
 			if len(as) == 2 && ts[0].k == fkPt && ts[1].k == fkPt {
-				return lid(id.Name) + " " + as[0] + " " + as[1], tF
+				return t.ln(id.Name) + " " + as[0] + " " + as[1], tF
 			}
 			return t.fail("call %s", src(t.pk, x)), tBad
+		}
+	}
+	// a function of the package that stays opaque: an explicit function parameter
+	if id, ok := x.Fun.(*ast.Ident); ok {
+		for _, an := range t.spec.abstract {
+			if an == id.Name {
+				return t.abstractCall(id.Name, x)
+			}
 		}
 	}
 	// a function translated earlier
@@ -716,6 +1159,13 @@ func (t *ftrans) call(x *ast.CallExpr) (string, fty) {
 		if key == "" {
 			r, rty := t.expr(f.X)
 			rn := map[fkind]string{fkBound: "Bound", fkPt: "Point", fkPts: "Ring"}[rty.k]
+			if isList(rty) {
+				if listNames[rty.name] != 0 {
+					rn = rty.name // the method set is the named type's
+				} else if rty.name != "" {
+					rn = "" // []Ring …: no methods
+				}
+			}
 			if rn == "" {
 				return t.fail("method call %s", src(t.pk, x)), tBad
 			}
@@ -727,8 +1177,12 @@ func (t *ftrans) call(x *ast.CallExpr) (string, fty) {
 	if sg == nil {
 		return t.fail("call of a function that is not translated: %s", fun), tBad
 	}
+	bind := false
 	if sg.fn.panicMode != "" {
-		return t.fail("call of a panicking function: %s", fun), tBad
+		if sg.fn.panicMode != "res" || t.spec.panicMode != "res" || sg.fn.errTy != t.spec.errTy {
+			return t.fail("call of a panicking function: %s", fun), tBad
+		}
+		bind = true
 	}
 	as, ts := args()
 	want := sg.params
@@ -757,7 +1211,73 @@ func (t *ftrans) call(x *ast.CallExpr) (string, fty) {
 	}
 	parts = append(parts, recvArg...)
 	parts = append(parts, as...)
-	return strings.Join(parts, " "), sg.ret
+	if bind {
+		// the callee may panic: its call is hoisted in front of the statement and matched on
+		t.nv++
+		v := fmt.Sprintf("v_%d", t.nv)
+		t.pending = append(t.pending, fpend{call: strings.Join(parts, " "), v: v})
+		return v, sg.ret
+	}
+	rt := sg.ret
+	rt.nie = sg.nie
+	return strings.Join(parts, " "), rt
+}
+
+// abstractCall: f(args) for a function f of the package that is not translated; f becomes a parameter
+// of the definition (and of every definition that calls it), typed after f's Go signature
+func (t *ftrans) abstractCall(name string, x *ast.CallExpr) (string, fty) {
+	if _, isVar := t.vars[name]; isVar {
+		return t.fail("call %s", src(t.pk, x)), tBad
+	}
+	_, fd := findFunc(t.pk.rel, "", name)
+	if fd == nil || fd.Type.Results == nil || len(fd.Type.Results.List) != 1 || len(fd.Type.Results.List[0].Names) > 1 {
+		return t.fail("opaque function %s", name), tBad
+	}
+	var ptys []fty
+	var tys []string
+	for _, p := range fd.Type.Params.List {
+		ty := fgoTy(p.Type)
+		if _, variadic := p.Type.(*ast.Ellipsis); variadic || ty.k == fkBad || ty.k == fkDistFn || len(p.Names) == 0 {
+			return t.fail("opaque function %s: parameter type", name), tBad
+		}
+		for range p.Names {
+			ptys = append(ptys, ty)
+			tys = append(tys, par(t.leanTy(ty)))
+		}
+	}
+	rty := fgoTy(fd.Type.Results.List[0].Type)
+	if rty.k == fkBad || rty.k == fkDistFn {
+		return t.fail("opaque function %s: result type", name), tBad
+	}
+	tys = append(tys, par(t.leanTy(rty)))
+	ln := lid(name)
+	sig := strings.Join(tys, " → ")
+	if old, ok := extraTypes[ln]; ok && old != sig {
+		return t.fail("opaque function %s: two signatures", name), tBad
+	}
+	if _, ok := extraTypes[ln]; !ok {
+		extraTypes[ln] = sig
+		extraOrder = append(extraOrder, ln)
+	}
+	if len(x.Args) != len(ptys) || x.Ellipsis.IsValid() {
+		return t.fail("arity of %s", name), tBad
+	}
+	parts := []string{ln}
+	for i, a := range x.Args {
+		v, ty := t.exprOrBool(a)
+		ok := ty.k == ptys[i].k
+		if ptys[i].k == fkFloat || ptys[i].k == fkInt {
+			ok = fUnify(ty, ptys[i]).k == ptys[i].k && (ptys[i].k != fkFloat || t.numOK(v, ty))
+		}
+		if !ok {
+			return t.fail("argument %d of %s", i, name), tBad
+		}
+		parts = append(parts, par(v))
+	}
+	t.extras[ln] = true
+	t.notes["opaque:"+name] = true
+	rty.nie = false
+	return strings.Join(parts, " "), rty
 }
 
 // ---- booleans -------------------------------------------------------------------------------
@@ -800,15 +1320,89 @@ func (t *ftrans) nativeBool(e ast.Expr) bool {
 		case token.LAND, token.LOR:
 			return t.nativeBool(x.X) || t.nativeBool(x.Y)
 		case token.EQL, token.NEQ:
-			saved := t.err
+			saved, sp, sn := t.err, t.pending, t.nv // (a trial translation: no effects are kept)
 			_, lt := t.exprOrBool(x.X)
 			_, rt := t.exprOrBool(x.Y)
-			t.err = saved
+			t.err, t.pending, t.nv = saved, sp, sn
 			k := fUnify(lt, rt).k
 			return !(k == fkInt || k == fkUInt)
 		}
 	}
 	return false
+}
+
+// isNil: the predeclared nil
+func (t *ftrans) isNil(e ast.Expr) bool {
+	id, ok := e.(*ast.Ident)
+	if !ok || id.Name != "nil" {
+		return false
+	}
+	_, isVar := t.vars["nil"]
+	return !isVar
+}
+
+// nieScan: the slice variables that stay "nil iff empty" once they are: every assignment to the name
+// is x = append(x, …) or x = nil, and its address is not taken
+func nieScan(body ast.Node) map[string]bool {
+	bad := map[string]bool{}
+	seen := map[string]bool{}
+	ast.Inspect(body, func(n ast.Node) bool {
+		switch st := n.(type) {
+		case *ast.Ident:
+			seen[st.Name] = true
+		case *ast.AssignStmt:
+			if st.Tok == token.DEFINE {
+				return true
+			}
+			for i, l := range st.Lhs {
+				id, ok := l.(*ast.Ident)
+				if !ok {
+					continue
+				}
+				fine := false
+				if st.Tok == token.ASSIGN && len(st.Lhs) == len(st.Rhs) && len(st.Lhs) == 1 {
+					switch r := st.Rhs[i].(type) {
+					case *ast.Ident:
+						fine = r.Name == "nil"
+					case *ast.CallExpr:
+						if f, ok := r.Fun.(*ast.Ident); ok && f.Name == "append" && len(r.Args) >= 1 {
+							if a, ok := r.Args[0].(*ast.Ident); ok && a.Name == id.Name {
+								fine = true
+							}
+						}
+					}
+				}
+				if !fine {
+					bad[id.Name] = true
+				}
+			}
+		case *ast.RangeStmt:
+			if st.Tok == token.ASSIGN {
+				for _, e := range []ast.Expr{st.Key, st.Value} {
+					if id, ok := e.(*ast.Ident); ok {
+						bad[id.Name] = true
+					}
+				}
+			}
+		case *ast.UnaryExpr:
+			if st.Op == token.AND {
+				if id := rootIdent(st.X); id != nil {
+					bad[id.Name] = true
+				}
+			}
+		}
+		return true
+	})
+	out := map[string]bool{}
+	for n := range seen {
+		if !bad[n] && n != "append" && n != "nil" {
+			out[n] = true
+		}
+	}
+	if bad["append"] || bad["nil"] {
+		return map[string]bool{}
+	}
+	return out
 }
 
 func flatten(e ast.Expr, op token.Token, out *[]ast.Expr) {
@@ -843,8 +1437,13 @@ func (t *ftrans) logic(e ast.Expr, prop bool) string {
 			var parts []ast.Expr
 			flatten(e, x.Op, &parts)
 			var ss []string
-			for _, p := range parts {
+			for i, p := range parts {
+				np := len(t.pending)
 				s := t.logic(p, prop)
+				if i > 0 && len(t.pending) != np {
+					// Go would not evaluate it when the left operand decides
+					return t.fail("a panicking operation on the right of %s", x.Op)
+				}
 				if inner, lg := isLogical(p); lg {
 					if b, ok := inner.(*ast.BinaryExpr); ok && (b.Op == token.LAND || b.Op == token.LOR) {
 						s = "(" + s + ")"
@@ -857,6 +1456,29 @@ func (t *ftrans) logic(e ast.Expr, prop bool) string {
 				return strings.Join(ss, sym[1])
 			}
 			return strings.Join(ss, sym[0])
+		}
+		if x.Op == token.EQL || x.Op == token.NEQ {
+			// xs == nil / xs != nil for a slice that is nil iff it is empty
+			other := ast.Expr(nil)
+			if t.isNil(x.Y) {
+				other = x.X
+			} else if t.isNil(x.X) {
+				other = x.Y
+			}
+			if other != nil {
+				v, ty := t.expr(other)
+				if !isList(ty) || !ty.nie {
+					return t.fail("comparison with nil: %s is not known to be nil exactly when it is empty", src(t.pk, other))
+				}
+				s := par(v) + ".isEmpty"
+				if x.Op == token.NEQ {
+					s = "!" + s
+				}
+				if prop {
+					return "(" + s + ") = true"
+				}
+				return s
+			}
 		}
 		l, lt := t.exprOrBool(x.X)
 		r, rt := t.exprOrBool(x.Y)
@@ -991,6 +1613,8 @@ func terminates(list []ast.Stmt) bool {
 	switch s := list[len(list)-1].(type) {
 	case *ast.ReturnStmt:
 		return true
+	case *ast.BranchStmt:
+		return s.Tok == token.CONTINUE && s.Label == nil
 	case *ast.ExprStmt:
 		_, p := isPanic(s)
 		return p
@@ -1010,6 +1634,27 @@ func hasReturn(list []ast.Stmt) bool {
 	for _, s := range list {
 		ast.Inspect(s, func(n ast.Node) bool {
 			switch x := n.(type) {
+			case *ast.ReturnStmt, *ast.BranchStmt:
+				found = true
+			case *ast.ExprStmt:
+				if _, p := isPanic(x); p {
+					found = true
+				}
+			case *ast.FuncLit:
+				return false
+			}
+			return !found
+		})
+	}
+	return found
+}
+
+// returnsIn: a `return` or a panic somewhere in the statements (not `continue`)
+func returnsIn(list []ast.Stmt) bool {
+	found := false
+	for _, s := range list {
+		ast.Inspect(s, func(n ast.Node) bool {
+			switch x := n.(type) {
 			case *ast.ReturnStmt:
 				found = true
 			case *ast.ExprStmt:
@@ -1025,28 +1670,111 @@ func hasReturn(list []ast.Stmt) bool {
 	return found
 }
 
-// fassigned: outer variables (already declared) assigned somewhere in the statements, sorted
-func (t *ftrans) fassigned(list []ast.Stmt) []string {
+// fassigned: outer variables (already declared) assigned somewhere in the statements, sorted.
+// Variables declared inside the statements (possibly shadowing an outer one) do not count.
+func (t *ftrans) fassigned(list []ast.Stmt) []string { return t.fassignedAt(list, 0) }
+
+// fassignedAt: lvl0 = 1 when the statements are the body of a nested block (a loop body)
+func (t *ftrans) fassignedAt(list []ast.Stmt, lvl0 int) []string {
 	set := map[string]bool{}
-	for _, s := range list {
-		ast.Inspect(s, func(n ast.Node) bool {
-			switch st := n.(type) {
-			case *ast.AssignStmt:
-				if st.Tok != token.DEFINE {
-					for _, l := range st.Lhs {
+	cp := func(m map[string]bool) map[string]bool {
+		o := map[string]bool{}
+		for k, v := range m {
+			o[k] = v
+		}
+		return o
+	}
+	var walk func(list []ast.Stmt, local map[string]bool, lvl int)
+	var stmt func(s ast.Stmt, local map[string]bool, lvl int)
+	stmt = func(s ast.Stmt, local map[string]bool, lvl int) {
+		switch st := s.(type) {
+		case nil:
+		case *ast.AssignStmt:
+			for _, l := range st.Lhs {
+				if id, ok := l.(*ast.Ident); ok && st.Tok == token.DEFINE {
+					// a := of several variables re-uses those declared IN THE SAME SCOPE; those are
+					// either local already or outer variables of the scope the list starts in
+					if _, outer := t.vars[id.Name]; outer && !local[id.Name] && lvl == 0 && t.vars[id.Name].depth == t.depth && len(st.Lhs) > 1 {
+						set[id.Name] = true
+					} else {
+						local[id.Name] = true
+					}
+				} else if id := rootIdent(l); id != nil && !local[id.Name] {
+					set[id.Name] = true
+				}
+			}
+		case *ast.IncDecStmt:
+			if id := rootIdent(st.X); id != nil && !local[id.Name] {
+				set[id.Name] = true
+			}
+		case *ast.DeclStmt:
+			if gd, ok := st.Decl.(*ast.GenDecl); ok {
+				for _, sp := range gd.Specs {
+					if vs, ok := sp.(*ast.ValueSpec); ok {
+						for _, n := range vs.Names {
+							local[n.Name] = true
+						}
+					}
+				}
+			}
+		case *ast.BlockStmt:
+			walk(st.List, cp(local), lvl+1)
+		case *ast.IfStmt:
+			l := cp(local)
+			stmt(st.Init, l, lvl+1)
+			walk(st.Body.List, cp(l), lvl+1)
+			stmt(st.Else, cp(l), lvl+1)
+		case *ast.ForStmt:
+			l := cp(local)
+			stmt(st.Init, l, lvl+1)
+			stmt(st.Post, l, lvl+1)
+			walk(st.Body.List, cp(l), lvl+1)
+		case *ast.RangeStmt:
+			l := cp(local)
+			for _, e := range []ast.Expr{st.Key, st.Value} {
+				if id, ok := e.(*ast.Ident); ok {
+					if st.Tok == token.DEFINE {
+						l[id.Name] = true
+					} else if !l[id.Name] {
+						set[id.Name] = true
+					}
+				}
+			}
+			walk(st.Body.List, cp(l), lvl+1)
+		case *ast.SwitchStmt:
+			l := cp(local)
+			stmt(st.Init, l, lvl+1)
+			for _, c := range st.Body.List {
+				if cc, ok := c.(*ast.CaseClause); ok {
+					walk(cc.Body, cp(l), lvl+1)
+				}
+			}
+		case *ast.ReturnStmt, *ast.ExprStmt, *ast.BranchStmt, *ast.EmptyStmt:
+		default:
+			// a statement outside the subset (the translation fails on it anyway): everything assigned counts
+			ast.Inspect(s, func(n ast.Node) bool {
+				switch a := n.(type) {
+				case *ast.AssignStmt:
+					for _, l := range a.Lhs {
 						if id := rootIdent(l); id != nil {
 							set[id.Name] = true
 						}
 					}
+				case *ast.IncDecStmt:
+					if id := rootIdent(a.X); id != nil {
+						set[id.Name] = true
+					}
 				}
-			case *ast.IncDecStmt:
-				if id := rootIdent(st.X); id != nil {
-					set[id.Name] = true
-				}
-			}
-			return true
-		})
+				return true
+			})
+		}
 	}
+	walk = func(list []ast.Stmt, local map[string]bool, lvl int) {
+		for _, s := range list {
+			stmt(s, local, lvl)
+		}
+	}
+	walk(list, map[string]bool{}, lvl0)
 	var out []string
 	for k := range set {
 		if _, ok := t.vars[k]; ok {
@@ -1058,18 +1786,24 @@ func (t *ftrans) fassigned(list []ast.Stmt) []string {
 }
 
 func (t *ftrans) tupleOf(vs []string) string {
-	if len(vs) == 1 {
-		return lid(vs[0])
+	if len(vs) == 0 {
+		return "()"
 	}
-	return "(" + strings.Join(lids(vs), ", ") + ")"
+	if len(vs) == 1 {
+		return t.ln(vs[0])
+	}
+	return "(" + strings.Join(t.lns(vs), ", ") + ")"
 }
 
 // bind produces the `let` pattern for the variables vs
 func (t *ftrans) bindPat(vs []string) string {
-	if len(vs) == 1 {
-		return lid(vs[0]) + " : " + t.leanTy(t.vars[vs[0]])
+	if len(vs) == 0 {
+		return "_"
 	}
-	return "(" + strings.Join(lids(vs), ", ") + ")"
+	if len(vs) == 1 {
+		return t.ln(vs[0]) + " : " + t.leanTy(t.vars[vs[0]])
+	}
+	return "(" + strings.Join(t.lns(vs), ", ") + ")"
 }
 
 func (t *ftrans) ret(results []ast.Expr) string {
@@ -1078,8 +1812,15 @@ func (t *ftrans) ret(results []ast.Expr) string {
 		return t.fail("return arity")
 	}
 	for i, r := range results {
-		s, ty := t.exprOrBool(r)
 		want := t.retTys[i]
+		if t.isNil(r) && isList(want) {
+			rs = append(rs, "[]") // nil: the empty list
+			continue
+		}
+		s, ty := t.exprOrBool(r)
+		if isList(want) && !ty.nie {
+			t.retNie = false
+		}
 		switch {
 		case ty.k == fkUInt && (want.k == fkZ || (want.k == fkInt && t.intTy() == "Int")):
 			s = "(" + s + " : Int)"
@@ -1096,11 +1837,11 @@ func (t *ftrans) ret(results []ast.Expr) string {
 	}
 	switch t.spec.panicMode {
 	case "option":
-		return "some " + par(v)
+		v = "some " + par(v)
 	case "res":
-		return ".ok " + par(v)
+		v = ".ok " + par(v)
 	}
-	return v
+	return t.wrap(t.take(), t.exit(v))
 }
 
 // store translates an assignment to `lhs` (identifier, p[0], b.Min, b.Min[0]) of the Lean value
@@ -1119,8 +1860,8 @@ func (t *ftrans) store(lhs ast.Expr, mk func(cur string, curTy fty) (string, boo
 		return "", "", false
 	}
 	rty := t.vars[root.Name]
-	path := strings.TrimPrefix(cur, lid(root.Name))
-	name := lid(root.Name)
+	path := strings.TrimPrefix(cur, t.ln(root.Name))
+	name := t.ln(root.Name)
 	switch {
 	case path == "":
 		return name + " : " + t.leanTy(rty), nv, true
@@ -1145,60 +1886,83 @@ func (t *ftrans) store(lhs ast.Expr, mk func(cur string, curTy fty) (string, boo
 }
 
 func (t *ftrans) assign(st *ast.AssignStmt, rest func() string) string {
+	// a, b := f(…)   (a function with several results; `_` discards one)
+	if len(st.Lhs) > 1 && len(st.Rhs) == 1 && (st.Tok == token.DEFINE || st.Tok == token.ASSIGN) {
+		v, ty := t.expr(st.Rhs[0])
+		if ty.k != fkTuple || len(ty.el) != len(st.Lhs) {
+			return t.fail("assignment %s", src(t.pk, st))
+		}
+		pend := t.take()
+		var names []string
+		for i, l := range st.Lhs {
+			id, ok := l.(*ast.Ident)
+			if !ok {
+				return t.fail("assignment %s", src(t.pk, st))
+			}
+			names = append(names, t.bindName(id.Name, ty.el[i], st.Tok == token.DEFINE, st))
+		}
+		if t.err != "" {
+			return "unsupported"
+		}
+		return t.wrap(pend, letLine("("+strings.Join(names, ", ")+")", v, rest()))
+	}
 	if len(st.Lhs) != len(st.Rhs) {
 		return t.fail("assignment %s", src(t.pk, st))
 	}
 	// tuple assignment  a, b = e1, e2  (all right-hand sides are evaluated first)
 	if len(st.Lhs) > 1 {
-		var names, vals []string
+		if st.Tok != token.DEFINE && st.Tok != token.ASSIGN {
+			return t.fail("assignment %s", src(t.pk, st))
+		}
+		var ids, vals []string
 		var tys []fty
 		for i := range st.Lhs {
 			id, ok := st.Lhs[i].(*ast.Ident)
-			if !ok {
+			if !ok || id.Name == "_" {
 				return t.fail("assignment %s", src(t.pk, st))
 			}
 			v, ty := t.exprOrBool(st.Rhs[i])
-			names, vals, tys = append(names, id.Name), append(vals, v), append(tys, ty)
+			ids, vals, tys = append(ids, id.Name), append(vals, v), append(tys, ty)
 		}
-		for i, n := range names {
-			if _, shadow := t.vars[n]; shadow && st.Tok == token.DEFINE {
-				return t.fail("declaration shadows %s", n)
-			}
-			if st.Tok == token.DEFINE {
-				t.vars[n] = t.defTy(tys[i])
-			} else if old, ok := t.vars[n]; !ok || old.k != t.defTy(tys[i]).k {
-				return t.fail("assignment %s", src(t.pk, st))
-			}
-		}
-		var ltys []string
-		for _, n := range names {
+		pend := t.take()
+		var names, ltys []string
+		for i, n := range ids {
+			names = append(names, t.bindName(n, t.defTy(tys[i]), st.Tok == token.DEFINE, st))
 			ltys = append(ltys, t.leanTy(t.vars[n]))
 		}
-		return letLine("("+strings.Join(lids(names), ", ")+")", "(("+strings.Join(vals, ", ")+") : "+strings.Join(ltys, " × ")+")", rest())
+		if t.err != "" {
+			return "unsupported"
+		}
+		return t.wrap(pend, letLine("("+strings.Join(names, ", ")+")", "(("+strings.Join(vals, ", ")+") : "+strings.Join(ltys, " × ")+")", rest()))
 	}
 	lhs, rhs := st.Lhs[0], st.Rhs[0]
 	if st.Tok == token.DEFINE {
 		id, ok := lhs.(*ast.Ident)
-		if !ok {
+		if !ok || id.Name == "_" {
 			return t.fail("assignment %s", src(t.pk, st))
-		}
-		if _, shadow := t.vars[id.Name]; shadow {
-			return t.fail("declaration shadows %s", id.Name)
 		}
 		v, ty := t.exprOrBool(rhs)
 		ty = t.defTy(ty)
 		if ty.k == fkBad || ty.k == fkTuple {
 			return t.fail("definition %s", src(t.pk, st))
 		}
-		t.vars[id.Name] = ty
-		return letLine(lid(id.Name)+" : "+t.leanTy(ty), v, rest())
+		pend := t.take()
+		name := t.declare(id.Name, ty)
+		if t.err != "" {
+			return "unsupported"
+		}
+		return t.wrap(pend, letLine(name+" : "+t.leanTy(ty), v, rest()))
 	}
 	op := map[token.Token]token.Token{token.ADD_ASSIGN: token.ADD, token.SUB_ASSIGN: token.SUB, token.MUL_ASSIGN: token.MUL,
 		token.QUO_ASSIGN: token.QUO, token.OR_ASSIGN: token.OR, token.AND_ASSIGN: token.AND}[st.Tok]
 	if st.Tok != token.ASSIGN && op == 0 {
 		return t.fail("assignment %s", src(t.pk, st))
 	}
+	np := len(t.pending)
 	pat, val, ok := t.store(lhs, func(cur string, cty fty) (string, bool) {
+		if len(t.pending) != np {
+			return "", false // a panicking operation on the left-hand side
+		}
 		if st.Tok == token.ASSIGN {
 			v, ty := t.exprOrBool(rhs)
 			if ty.k != cty.k && fUnify(ty, cty).k != cty.k {
@@ -1216,7 +1980,24 @@ func (t *ftrans) assign(st *ast.AssignStmt, rest func() string) string {
 	if !ok {
 		return t.fail("assignment %s", src(t.pk, st))
 	}
-	return letLine(pat, val, rest())
+	pend := t.take()
+	return t.wrap(pend, letLine(pat, val, rest()))
+}
+
+// bindName: the Lean name bound by one left-hand side of a multiple assignment / definition
+func (t *ftrans) bindName(name string, ty fty, define bool, st ast.Stmt) string {
+	if name == "_" {
+		return "_"
+	}
+	old, exists := t.vars[name]
+	if define && !(exists && old.depth == t.depth) {
+		return t.declare(name, ty)
+	}
+	// an assignment (a := re-uses the variables already declared in the same scope)
+	if !exists || old.k != ty.k {
+		t.fail("assignment %s", src(t.pk, st))
+	}
+	return t.ln(name)
 }
 
 func (t *ftrans) defTy(ty fty) fty {
@@ -1234,6 +2015,9 @@ func (t *ftrans) block(list []ast.Stmt, k string) string {
 	if t.err != "" {
 		return "unsupported"
 	}
+	if len(t.pending) != 0 {
+		return t.fail("internal: panicking operations were not placed")
+	}
 	if len(list) == 0 {
 		if k == "" {
 			return t.fail("missing return")
@@ -1245,9 +2029,12 @@ func (t *ftrans) block(list []ast.Stmt, k string) string {
 	if msg, ok := isPanic(s); ok {
 		switch t.spec.panicMode {
 		case "option":
+			if t.inRetLoop {
+				return t.exit("none")
+			}
 			return "none"
 		case "res":
-			return ".panic " + msg
+			return t.exit(".panic " + msg)
 		}
 		return t.fail("panic in a function that must not panic")
 	}
@@ -1256,8 +2043,35 @@ func (t *ftrans) block(list []ast.Stmt, k string) string {
 		if t.spec.prefixUntil != "" {
 			return t.fail("return inside the translated prefix")
 		}
+		if t.loopK != "" && !t.inRetLoop {
+			return t.fail("internal: return inside a plain loop")
+		}
 		return t.ret(st.Results)
+	case *ast.BranchStmt:
+		if st.Tok == token.CONTINUE && st.Label == nil && t.loopK != "" {
+			return t.loopK
+		}
+		return t.fail("statement %s", src(t.pk, s))
+	case *ast.EmptyStmt:
+		if t.scopeEnd[st] {
+			t.depth-- // (restored by the branch this stands in)
+		}
+		return rest()
 	case *ast.BlockStmt:
+		// a nested block is flattened into its continuation: it must not declare anything the
+		// continuation could confuse with an outer variable
+		for _, in := range st.List {
+			for _, n := range declaredBy(in) {
+				if _, outer := t.vars[n]; outer {
+					return t.fail("a nested block declares %s again", n)
+				}
+				for _, after := range tail {
+					if mentions(after, n) {
+						return t.fail("a nested block declares %s, which is used after it", n)
+					}
+				}
+			}
+		}
 		return t.block(append(append([]ast.Stmt{}, st.List...), tail...), k)
 	case *ast.AssignStmt:
 		return t.assign(st, rest)
@@ -1280,13 +2094,14 @@ func (t *ftrans) block(list []ast.Stmt, k string) string {
 				return t.fail("declaration %s", src(t.pk, st))
 			}
 			ty := fgoTy(vs.Type)
-			zero := map[fkind]string{fkFloat: "0", fkInt: "0", fkBool: "false", fkPt: "⟨0, 0⟩"}[ty.k]
+			zero := map[fkind]string{fkFloat: "0", fkInt: "0", fkBool: "false", fkPt: "⟨0, 0⟩", fkPts: "[]", fkPtss: "[]", fkPtsss: "[]"}[ty.k]
 			if zero == "" {
 				return t.fail("declaration %s", src(t.pk, st))
 			}
+			ty.nie = isList(ty) // (a nil slice)
 			for _, n := range vs.Names {
-				t.vars[n.Name] = ty
-				out += "let " + lid(n.Name) + " : " + t.leanTy(ty) + " := " + zero + "\n"
+				name := t.declare(n.Name, ty)
+				out += "let " + name + " : " + t.leanTy(ty) + " := " + zero + "\n"
 			}
 		}
 		return out + rest()
@@ -1300,6 +2115,79 @@ func (t *ftrans) block(list []ast.Stmt, k string) string {
 		return t.rangeStmt(st, rest)
 	}
 	return t.fail("statement %s", strings.SplitN(src(t.pk, s), "\n", 2)[0])
+}
+
+// writes: the name is assigned, declared, incremented or has its address taken somewhere in the node
+func writes(n ast.Node, name string) bool {
+	found := false
+	is := func(e ast.Expr) {
+		if id := rootIdent(e); id != nil && id.Name == name {
+			found = true
+		}
+	}
+	ast.Inspect(n, func(x ast.Node) bool {
+		switch st := x.(type) {
+		case *ast.AssignStmt:
+			for _, l := range st.Lhs {
+				is(l)
+			}
+		case *ast.IncDecStmt:
+			is(st.X)
+		case *ast.ValueSpec:
+			for _, id := range st.Names {
+				if id.Name == name {
+					found = true
+				}
+			}
+		case *ast.RangeStmt:
+			if st.Key != nil {
+				is(st.Key)
+			}
+			if st.Value != nil {
+				is(st.Value)
+			}
+		case *ast.UnaryExpr:
+			if st.Op == token.AND {
+				is(st.X)
+			}
+		case *ast.FuncLit:
+			for _, f := range st.Type.Params.List {
+				for _, id := range f.Names {
+					if id.Name == name {
+						found = true
+					}
+				}
+			}
+		}
+		return !found
+	})
+	return found
+}
+
+// declaredBy: the names a statement declares in the scope it stands in
+func declaredBy(s ast.Stmt) []string {
+	var out []string
+	switch st := s.(type) {
+	case *ast.AssignStmt:
+		if st.Tok == token.DEFINE {
+			for _, l := range st.Lhs {
+				if id, ok := l.(*ast.Ident); ok && id.Name != "_" {
+					out = append(out, id.Name)
+				}
+			}
+		}
+	case *ast.DeclStmt:
+		if gd, ok := st.Decl.(*ast.GenDecl); ok {
+			for _, sp := range gd.Specs {
+				if vs, ok := sp.(*ast.ValueSpec); ok {
+					for _, n := range vs.Names {
+						out = append(out, n.Name)
+					}
+				}
+			}
+		}
+	}
+	return out
 }
 
 func elseList(st *ast.IfStmt) []ast.Stmt {
@@ -1323,6 +2211,9 @@ func (t *ftrans) ifStmt(st *ast.IfStmt, tail []ast.Stmt, k string) string {
 			if !ok {
 				return t.fail("if-init")
 			}
+			if id.Name == "_" {
+				continue
+			}
 			if _, shadow := t.vars[id.Name]; shadow {
 				return t.fail("if-init shadows %s", id.Name)
 			}
@@ -1337,12 +2228,40 @@ func (t *ftrans) ifStmt(st *ast.IfStmt, tail []ast.Stmt, k string) string {
 		return t.assign(as, func() string { return t.ifStmt(&plain, tail, k) })
 	}
 	c := t.cond(st.Cond)
+	pend := t.take()
 	body, els := st.Body.List, elseList(st)
 	saved := t.copyVars()
+	depth := t.depth
+	nonEmpty := "" // a slice variable known to be non-empty (hence not nil) in the next branch
 	branch := func(list []ast.Stmt, k string) string {
 		t.vars = copyF(saved)
-		defer func() { t.vars = saved }()
+		if v, ok := t.vars[nonEmpty]; ok && nonEmpty != "" && isList(v) {
+			v.nie = true
+			t.vars[nonEmpty] = v
+		}
+		nonEmpty = ""
+		t.depth = depth + 1
+		defer func() { t.vars = saved; t.depth = depth }()
 		return t.block(list, k)
+	}
+	// the statements after the if, continued inside one of its branches: they stand in the outer scope,
+	// so a branch that declares (shadows) something they mention cannot be continued this way
+	branchThen := func(list, after []ast.Stmt, k string) string {
+		if len(after) > 0 {
+			for _, in := range list {
+				for _, n := range declaredBy(in) {
+					for _, a := range after {
+						if mentions(a, n) {
+							return t.fail("a branch declares %s, which is used after the if", n)
+						}
+					}
+				}
+			}
+		}
+		// (the marker ends the branch's scope: what follows is translated at the outer depth)
+		mark := &ast.EmptyStmt{}
+		t.scopeEnd[mark] = true
+		return branch(append(append(append([]ast.Stmt{}, list...), mark), after...), k)
 	}
 	restAfter := func() string {
 		t.vars = saved
@@ -1352,12 +2271,13 @@ func (t *ftrans) ifStmt(st *ast.IfStmt, tail []ast.Stmt, k string) string {
 	case terminates(body):
 		// if c { …return } [else {A}] ; rest      =>  if c then … else (A; rest)
 		a := branch(body, "")
-		b := branch(append(append([]ast.Stmt{}, els...), tail...), k)
-		return ite(c, a, b)
+		nonEmpty = lenIsZero(st.Cond) // if len(x) == 0 { …return }: x is not empty from here on
+		b := branchThen(els, tail, k)
+		return t.wrap(pend, ite(c, a, b))
 	case els != nil && terminates(els):
-		a := branch(append(append([]ast.Stmt{}, body...), tail...), k)
+		a := branchThen(body, tail, k)
 		b := branch(els, "")
-		return ite(c, a, b)
+		return t.wrap(pend, ite(c, a, b))
 	case !hasReturn(body) && !hasReturn(els):
 		// a purely assigning if: bind the assigned variables to the value of an if-expression
 		vs := t.fassigned([]ast.Stmt{st})
@@ -1368,16 +2288,16 @@ func (t *ftrans) ifStmt(st *ast.IfStmt, tail []ast.Stmt, k string) string {
 		a := branch(body, tup)
 		b := branch(els, tup)
 		if len(tail) == 0 && k == tup {
-			return ite(c, a, b)
+			return t.wrap(pend, ite(c, a, b))
 		}
-		return letLine(t.bindPat(vs), ite(c, a, b), restAfter())
+		return t.wrap(pend, letLine(t.bindPat(vs), ite(c, a, b), restAfter()))
 	default:
 		// mixed: some paths return, some fall through (possibly after assignments).
 		// The continuation becomes a local join point taking the assigned variables.
 		if len(tail) == 0 && k != "" && !strings.Contains(k, "\n") {
 			// nothing follows the if: both branches continue with k itself (k names the variables
-			// current at the point where it is pasted; shadowing declarations are rejected)
-			return ite(c, branch(body, k), branch(els, k))
+			// current at the point where it is pasted; shadowing declarations get fresh names)
+			return t.wrap(pend, ite(c, branch(body, k), branch(els, k)))
 		}
 		vs := t.fassigned([]ast.Stmt{st})
 		t.nk++
@@ -1387,10 +2307,10 @@ func (t *ftrans) ifStmt(st *ast.IfStmt, tail []ast.Stmt, k string) string {
 			binder, callK = "(_ : Unit)", kn+" ()"
 		} else {
 			for _, v := range vs {
-				binder += fmt.Sprintf("(%s : %s) ", lid(v), t.leanTy(saved[v]))
+				binder += fmt.Sprintf("(%s : %s) ", t.ln(v), t.leanTy(saved[v]))
 			}
 			binder = strings.TrimSpace(binder)
-			callK = kn + " " + strings.Join(lids(vs), " ")
+			callK = kn + " " + strings.Join(t.lns(vs), " ")
 		}
 		if k == "" && len(tail) == 0 {
 			return t.fail("missing return after if")
@@ -1398,8 +2318,109 @@ func (t *ftrans) ifStmt(st *ast.IfStmt, tail []ast.Stmt, k string) string {
 		a := branch(body, callK)
 		b := branch(els, callK)
 		r := restAfter()
-		return "let " + kn + " := fun " + binder + " =>\n" + indentAll(r, 4) + "\n" + ite(c, a, b)
+		return t.wrap(pend, "let "+kn+" := fun "+binder+" =>\n"+indentAll(r, 4)+"\n"+ite(c, a, b))
 	}
+}
+
+// lenIsZero: the condition `len(x) == 0` for an identifier x ("" otherwise)
+func lenIsZero(e ast.Expr) string {
+	b, ok := e.(*ast.BinaryExpr)
+	if !ok || b.Op != token.EQL {
+		return ""
+	}
+	c, ok := b.X.(*ast.CallExpr)
+	z, ok2 := b.Y.(*ast.BasicLit)
+	if !ok || !ok2 || z.Value != "0" || len(c.Args) != 1 {
+		return ""
+	}
+	if f, ok := c.Fun.(*ast.Ident); !ok || f.Name != "len" {
+		return ""
+	}
+	if id, ok := c.Args[0].(*ast.Ident); ok {
+		return id.Name
+	}
+	return ""
+}
+
+// the predeclared / package names the translator gives a meaning to: a function that declares one of
+// them (or a package that does) is outside the subset
+var specialNames = map[string]bool{"len": true, "append": true, "nil": true, "float64": true, "panic": true, "true": true,
+	"false": true, "math": true, "orb": true, "int": true, "bool": true}
+
+func declaresSpecial(pk *pkgFiles, fd *ast.FuncDecl) string {
+	found := ""
+	note := func(id *ast.Ident) {
+		if id != nil && specialNames[id.Name] && found == "" {
+			found = id.Name
+		}
+	}
+	fields := func(fl *ast.FieldList) {
+		if fl != nil {
+			for _, f := range fl.List {
+				for _, n := range f.Names {
+					note(n)
+				}
+			}
+		}
+	}
+	fields(fd.Recv)
+	fields(fd.Type.Params)
+	fields(fd.Type.Results)
+	ast.Inspect(fd.Body, func(n ast.Node) bool {
+		switch st := n.(type) {
+		case *ast.AssignStmt:
+			if st.Tok == token.DEFINE {
+				for _, l := range st.Lhs {
+					if id, ok := l.(*ast.Ident); ok {
+						note(id)
+					}
+				}
+			}
+		case *ast.ValueSpec:
+			for _, id := range st.Names {
+				note(id)
+			}
+		case *ast.TypeSpec:
+			note(st.Name)
+		case *ast.RangeStmt:
+			if st.Tok == token.DEFINE {
+				for _, e := range []ast.Expr{st.Key, st.Value} {
+					if id, ok := e.(*ast.Ident); ok {
+						note(id)
+					}
+				}
+			}
+		case *ast.FuncLit:
+			fields(st.Type.Params)
+			fields(st.Type.Results)
+		case *ast.LabeledStmt:
+			note(st.Label)
+		}
+		return true
+	})
+	// package level (imports are fine: math, orb are meant to be the packages)
+	for _, f := range pk.files {
+		for _, d := range f.Decls {
+			switch dd := d.(type) {
+			case *ast.FuncDecl:
+				if dd.Recv == nil {
+					note(dd.Name)
+				}
+			case *ast.GenDecl:
+				for _, sp := range dd.Specs {
+					switch x := sp.(type) {
+					case *ast.ValueSpec:
+						for _, id := range x.Names {
+							note(id)
+						}
+					case *ast.TypeSpec:
+						note(x.Name)
+					}
+				}
+			}
+		}
+	}
+	return found
 }
 
 func copyF(m map[string]fty) map[string]fty {
@@ -1419,6 +2440,9 @@ func (t *ftrans) switchStmt(st *ast.SwitchStmt, tail []ast.Stmt, k string) strin
 	if tty.k != fkInt {
 		return t.fail("switch tag %s", src(t.pk, st.Tag))
 	}
+	if len(t.pending) != 0 {
+		return t.fail("a panicking operation in a switch tag")
+	}
 	type arm struct{ c, body string }
 	var arms []arm
 	for _, cs := range st.Body.List {
@@ -1430,8 +2454,13 @@ func (t *ftrans) switchStmt(st *ast.SwitchStmt, tail []ast.Stmt, k string) strin
 		if fUnify(vt, tI).k != fkInt {
 			return t.fail("switch case value")
 		}
+		if len(t.pending) != 0 {
+			return t.fail("a panicking operation in a case value")
+		}
 		saved := t.copyVars()
+		t.depth++
 		b := t.block(cc.Body, "")
+		t.depth--
 		t.vars = saved
 		arms = append(arms, arm{par(tag) + " == " + par(v), b})
 	}
@@ -1442,18 +2471,141 @@ func (t *ftrans) switchStmt(st *ast.SwitchStmt, tail []ast.Stmt, k string) strin
 	return out
 }
 
-// for i := lo; i < len(xs)-k; i++ { … xs[i+c] … xs[i+c+1] … }   (consecutive pairs)
+// ---- loops ----------------------------------------------------------------------------------
+//
+// A loop becomes a fold over a list whose state is the tuple of the outer variables its body
+// assigns.  A body without `return` (and, in a "res" function, without panicking operations)
+// becomes `List.foldl` / `foldPairs`; a body that may return becomes `foldlRet` / `foldPairsRet`
+// (Orb.LoopForms): the step function answers `Sum.inl r` for `return r` and `Sum.inr state` at
+// the end of the body (and at `continue`).  No `break`, no labels, no nested loops.
+
+type floop struct {
+	pairs   bool   // foldPairs / foldPairsRet instead of List.foldl / foldlRet
+	binders string // the element binder(s) of the step function
+	list    string // the Lean list the loop runs over
+	prelude string // let-lines in front of the body
+	xs      string // Go name of the slice
+}
+
+// checkLoopBody: no nested loops, closures, break, goto
+func (t *ftrans) checkLoopBody(body *ast.BlockStmt) string {
+	bad := ""
+	ast.Inspect(body, func(n ast.Node) bool {
+		switch x := n.(type) {
+		case *ast.BranchStmt:
+			if x.Tok != token.CONTINUE || x.Label != nil {
+				bad = "control flow inside the loop"
+			}
+		case *ast.ForStmt, *ast.RangeStmt, *ast.FuncLit, *ast.SwitchStmt, *ast.TypeSwitchStmt, *ast.SelectStmt, *ast.GoStmt, *ast.DeferStmt, *ast.LabeledStmt:
+			bad = "control flow inside the loop"
+		}
+		return bad == ""
+	})
+	return bad
+}
+
+// emitLoop translates the body (setup declares the loop's own variables) and builds the fold.
+func (t *ftrans) emitLoop(body *ast.BlockStmt, lp floop, setup func(), rest func() string) string {
+	if t.loopK != "" {
+		return t.fail("nested loop")
+	}
+	if len(t.pending) != 0 {
+		return t.fail("a panicking operation in a loop header")
+	}
+	vs := t.fassignedAt(body.List, 1)
+	for _, v := range vs {
+		if v == lp.xs {
+			return t.fail("loop assigns the slice")
+		}
+	}
+	needRet := returnsIn(body.List)
+	if len(vs) == 0 && !needRet {
+		return t.fail("loop without effect")
+	}
+	saved := t.copyVars()
+	oldSubst, oldSafe := t.subst, t.safeIdx
+	state := t.tupleOf(vs)
+	var binder string
+	switch len(vs) {
+	case 0:
+		binder = "(_ : Unit)"
+	case 1:
+		binder = "(" + t.ln(vs[0]) + " : " + t.leanTy(t.vars[vs[0]]) + ")"
+	default:
+		var tys []string
+		for _, v := range vs {
+			tys = append(tys, t.leanTy(t.vars[v]))
+		}
+		binder = "((" + strings.Join(t.lns(vs), ", ") + ") : " + strings.Join(tys, " × ") + ")"
+	}
+	run := func(ret bool) string {
+		t.vars = copyF(saved)
+		t.depth++
+		setup()
+		t.inRetLoop, t.plainLoop, t.plainPend = ret, !ret, false
+		if ret {
+			t.loopK = "Sum.inr " + state
+		} else {
+			t.loopK = state
+		}
+		b := t.block(body.List, t.loopK)
+		t.loopK, t.inRetLoop, t.plainLoop = "", false, false
+		t.depth--
+		t.vars, t.subst, t.safeIdx = saved, oldSubst, oldSafe
+		return b
+	}
+	b := run(needRet)
+	if !needRet && t.plainPend {
+		needRet = true
+		b = run(true)
+	}
+	if t.err != "" {
+		return "unsupported"
+	}
+	b = lp.prelude + b
+	if !needRet {
+		var val string
+		if lp.pairs {
+			val = "foldPairs (fun " + binder + " " + lp.binders + " =>\n" + indentAll(b, 4) + ")\n  " + lp.list + " " + state
+		} else {
+			val = "List.foldl (fun " + binder + " " + lp.binders + " =>\n" + indentAll(b, 4) + ")\n  " + state + " " + lp.list
+		}
+		return letLine(t.bindPat(vs), val, rest())
+	}
+	fn := "foldlRet"
+	if lp.pairs {
+		fn = "foldPairsRet"
+	}
+	pat := t.tupleOf(vs)
+	if len(vs) == 0 {
+		pat = "_"
+	}
+	return "(match " + fn + " (ρ := " + t.retLean() + ") (fun " + binder + " " + lp.binders + " =>\n" + indentAll(b, 4) + ")\n  " + lp.list + " " + state +
+		" with\n| .inl ret_ => " + t.exit("ret_") + "\n| .inr " + pat + " =>\n" + indentAll(rest(), 4) + ")"
+}
+
+// for i := lo; i < len(xs)-k; i++ { … xs[i+c] … [xs[i+c+1]] … }
+//
+//	one index:  every element of xs.drop (lo+c)          (k = c)
+//	two:        every consecutive pair of xs.drop (lo+c) (k = c+1)
 func (t *ftrans) forStmt(st *ast.ForStmt, rest func() string) string {
 	init, ok := st.Init.(*ast.AssignStmt)
-	if !ok || init.Tok != token.DEFINE || len(init.Lhs) != 1 {
+	if !ok || init.Tok != token.DEFINE || len(init.Lhs) != 1 || len(init.Rhs) != 1 {
 		return t.fail("loop init")
 	}
-	iv := init.Lhs[0].(*ast.Ident).Name
+	ivId, ok := init.Lhs[0].(*ast.Ident)
+	if !ok {
+		return t.fail("loop init")
+	}
+	iv := ivId.Name
 	loLit, ok := init.Rhs[0].(*ast.BasicLit)
 	if !ok || loLit.Kind != token.INT {
 		return t.fail("loop start")
 	}
-	lo, _ := strconv.Atoi(loLit.Value)
+	lo, err := strconv.Atoi(loLit.Value)
+	if err != nil {
+		return t.fail("loop start")
+	}
 	if inc, ok := st.Post.(*ast.IncDecStmt); !ok || inc.Tok != token.INC || src(t.pk, inc.X) != iv {
 		return t.fail("loop step")
 	}
@@ -1468,7 +2620,10 @@ func (t *ftrans) forStmt(st *ast.ForStmt, rest func() string) string {
 		if !ok || l.Kind != token.INT {
 			return t.fail("loop bound")
 		}
-		kk, _ = strconv.Atoi(l.Value)
+		kk, err = strconv.Atoi(l.Value)
+		if err != nil {
+			return t.fail("loop bound")
+		}
 		bound = b.X
 	}
 	call, ok := bound.(*ast.CallExpr)
@@ -1476,13 +2631,16 @@ func (t *ftrans) forStmt(st *ast.ForStmt, rest func() string) string {
 		return t.fail("loop bound")
 	}
 	xsId, ok := call.Args[0].(*ast.Ident)
-	if !ok || t.vars[xsId.Name].k != fkPts {
+	if !ok || !isList(t.vars[xsId.Name]) {
+		return t.fail("loop bound")
+	}
+	if _, isVar := t.vars["len"]; isVar {
 		return t.fail("loop bound")
 	}
 	xs := xsId.Name
 	// every use of xs and of i inside the body
 	offsets := map[int]string{}
-	bad := ""
+	bad := t.checkLoopBody(st.Body)
 	var scan func(n ast.Node) bool
 	scan = func(n ast.Node) bool {
 		switch x := n.(type) {
@@ -1518,12 +2676,12 @@ func (t *ftrans) forStmt(st *ast.ForStmt, rest func() string) string {
 			if x.Name == iv {
 				bad = "the loop counter is used other than as an index"
 			}
-		case *ast.BranchStmt, *ast.ReturnStmt, *ast.ForStmt, *ast.RangeStmt, *ast.FuncLit:
-			bad = "control flow inside the loop"
 		}
 		return bad == ""
 	}
-	ast.Inspect(st.Body, scan)
+	if bad == "" {
+		ast.Inspect(st.Body, scan)
+	}
 	if bad != "" {
 		return t.fail("loop body: %s", bad)
 	}
@@ -1532,99 +2690,121 @@ func (t *ftrans) forStmt(st *ast.ForStmt, rest func() string) string {
 		offs = append(offs, o)
 	}
 	sort.Ints(offs)
-	if len(offs) != 2 || offs[1] != offs[0]+1 {
-		return t.fail("loop does not visit consecutive pairs")
-	}
-	c := offs[0]
-	if kk != c+1 || lo+c < 0 {
-		return t.fail("loop range does not match the indices used")
-	}
-	vs := t.fassigned(st.Body.List)
-	for _, v := range vs {
-		if v == xs {
-			return t.fail("loop assigns the slice")
+	el := elemTy(t.vars[xs])
+	elT := t.leanTy(el)
+	var lp floop
+	var sub map[string]fsub
+	switch {
+	case len(offs) == 1:
+		c := offs[0]
+		if kk != c || lo+c < 0 {
+			return t.fail("loop range does not match the index used")
 		}
-	}
-	if len(vs) == 0 {
-		return t.fail("loop without effect")
-	}
-	saved := t.copyVars()
-	oldSubst := t.subst
-	t.subst = map[string]string{offsets[c]: "p_", offsets[c+1]: "q_"}
-	t.vars["p_"], t.vars["q_"] = tP, tP
-	delete(t.vars, xs)
-	body := t.block(st.Body.List, t.tupleOf(vs))
-	t.subst = oldSubst
-	t.vars = saved
-	var binder string
-	if len(vs) == 1 {
-		binder = "(" + lid(vs[0]) + " : " + t.leanTy(t.vars[vs[0]]) + ")"
-	} else {
-		var tys []string
-		for _, v := range vs {
-			tys = append(tys, t.leanTy(t.vars[v]))
+		lp = floop{binders: "(x_ : " + elT + ")", xs: xs}
+		sub = map[string]fsub{offsets[c]: {"x_", el}}
+	case len(offs) == 2 && offs[1] == offs[0]+1:
+		c := offs[0]
+		if kk != c+1 || lo+c < 0 {
+			return t.fail("loop range does not match the indices used")
 		}
-		binder = "((" + strings.Join(lids(vs), ", ") + ") : " + strings.Join(tys, " × ") + ")"
+		lp = floop{pairs: true, binders: "(p_ q_ : " + elT + ")", xs: xs}
+		sub = map[string]fsub{offsets[c]: {"p_", el}, offsets[c+1]: {"q_", el}}
+	default:
+		return t.fail("loop visits neither single elements nor consecutive pairs")
 	}
-	list := lid(xs)
-	if lo+c > 0 {
-		list = fmt.Sprintf("(%s.drop %d)", lid(xs), lo+c)
+	lp.list = t.ln(xs)
+	if lo+offs[0] > 0 {
+		lp.list = fmt.Sprintf("(%s.drop %d)", t.ln(xs), lo+offs[0])
 	}
-	val := "foldPairs (fun " + binder + " (p_ q_ : Pt α) =>\n" + indentAll(body, 4) + ")\n  " + list + " " + t.tupleOf(vs)
-	return letLine(t.bindPat(vs), val, rest())
+	setup := func() {
+		t.subst = sub
+		for _, v := range sub {
+			t.vars[v.v] = fty{k: v.ty.k, name: v.ty.name, depth: t.depth}
+		}
+		delete(t.vars, xs)
+		delete(t.vars, iv)
+	}
+	return t.emitLoop(st.Body, lp, setup, rest)
 }
 
-// for _, x := range xs { … }   =>   List.foldl over xs
+// for _, x := range xs { … }        =>  a fold over xs
+// for i := range xs / for i, x := …  =>  a fold over List.range xs.length, reading xs.getD i
 func (t *ftrans) rangeStmt(st *ast.RangeStmt, rest func() string) string {
-	if st.Tok != token.DEFINE || st.Value == nil {
+	if st.Tok != token.DEFINE || st.Key == nil {
 		return t.fail("range loop shape")
 	}
-	if k, ok := st.Key.(*ast.Ident); !ok || k.Name != "_" {
-		return t.fail("range loop with an index")
-	}
-	xv, ok := st.Value.(*ast.Ident)
+	key, ok := st.Key.(*ast.Ident)
 	xsId, ok2 := st.X.(*ast.Ident)
-	if !ok || !ok2 || t.vars[xsId.Name].k != fkPts {
+	if !ok || !ok2 || !isList(t.vars[xsId.Name]) {
 		return t.fail("range loop shape")
 	}
-	if _, shadow := t.vars[xv.Name]; shadow {
-		return t.fail("range variable shadows %s", xv.Name)
-	}
-	bad := ""
-	ast.Inspect(st.Body, func(n ast.Node) bool {
-		switch x := n.(type) {
-		case *ast.Ident:
-			if x.Name == xsId.Name {
-				bad = "the slice is used inside the loop"
-			}
-		case *ast.BranchStmt, *ast.ReturnStmt, *ast.ForStmt, *ast.RangeStmt, *ast.FuncLit:
-			bad = "control flow inside the loop"
+	val := "_"
+	if st.Value != nil {
+		v, ok := st.Value.(*ast.Ident)
+		if !ok {
+			return t.fail("range loop shape")
 		}
-		return bad == ""
-	})
-	if bad != "" {
+		val = v.Name
+	}
+	if bad := t.checkLoopBody(st.Body); bad != "" {
 		return t.fail("loop body: %s", bad)
 	}
-	vs := t.fassigned(st.Body.List)
-	if len(vs) == 0 {
-		return t.fail("loop without effect")
+	xs := xsId.Name
+	xsL := t.ln(xs)
+	el := elemTy(t.vars[xs])
+	elT := t.leanTy(el)
+	// the body neither assigns nor declares again the slice, the index, the element
+	for _, n := range []string{xs, key.Name, val} {
+		if n != "_" && (writes(st.Body, n) || n == "len") {
+			return t.fail("loop body: %s is assigned or declared inside the loop", n)
+		}
+	}
+	if key.Name == "_" {
+		if val == "_" {
+			return t.fail("range loop shape")
+		}
+		// the element only: the body must not look at the slice
+		if mentions(st.Body, xs) {
+			return t.fail("loop body: the slice is used inside the loop")
+		}
+		lp := floop{xs: xs, list: xsL}
+		setup := func() {
+			lp.binders = "(" + t.declare(val, el) + " : " + elT + ")"
+		}
+		// (the binder text is needed before the body is translated: declare once to learn the name)
+		saved := t.copyVars()
+		t.depth++
+		setup()
+		t.depth--
+		t.vars = saved
+		return t.emitLoop(st.Body, lp, func() { t.declare(val, el) }, rest)
+	}
+	if t.intTy() != "Nat" {
+		return t.fail("range loop with an index in an Int function")
+	}
+	lp := floop{xs: xs, list: "(List.range " + par(xsL) + ".length)"}
+	get := fmt.Sprintf("(%s.getD %%s %s)", par(xsL), zeroOf(el))
+	setup := func() {
+		i := t.declare(key.Name, tI)
+		t.safeIdx = map[string]bool{xs + "[" + key.Name + "]": true}
+		if val != "_" {
+			t.declare(val, el)
+		}
+		_ = i
 	}
 	saved := t.copyVars()
-	t.vars[xv.Name] = tP
-	body := t.block(st.Body.List, t.tupleOf(vs))
-	t.vars = saved
-	var binder string
-	if len(vs) == 1 {
-		binder = "(" + lid(vs[0]) + " : " + t.leanTy(t.vars[vs[0]]) + ")"
-	} else {
-		var tys []string
-		for _, v := range vs {
-			tys = append(tys, t.leanTy(t.vars[v]))
-		}
-		binder = "((" + strings.Join(lids(vs), ", ") + ") : " + strings.Join(tys, " × ") + ")"
+	t.depth++
+	setup()
+	iL := t.ln(key.Name)
+	lp.binders = "(" + iL + " : Nat)"
+	if val != "_" {
+		lp.prelude = "let " + t.ln(val) + " : " + elT + " := " + fmt.Sprintf(get, iL) + "\n"
 	}
-	val := "List.foldl (fun " + binder + " (" + lid(xv.Name) + " : Pt α) =>\n" + indentAll(body, 4) + ")\n  " + t.tupleOf(vs) + " " + lid(xsId.Name)
-	return letLine(t.bindPat(vs), val, rest())
+	t.depth--
+	t.vars = saved
+	t.safeIdx = nil
+	t.notes["range-index"] = true
+	return t.emitLoop(st.Body, lp, setup, rest)
 }
 
 // ---------------------------------------------------------------------------------------------
@@ -1651,9 +2831,29 @@ func (t *ftrans) translate(fd *ast.FuncDecl, qual string) (def string, sg *fsig)
 			t.fail("parameter type %s", src(t.pk, te))
 			return
 		}
-		t.vars[name] = ty
+		if name == "_" {
+			t.fail("unnamed parameter")
+			return
+		}
 		ptys = append(ptys, ty)
-		params = append(params, fmt.Sprintf("(%s : %s)", lid(name), t.leanTy(ty)))
+		params = append(params, fmt.Sprintf("(%s : %s)", t.declare(name, ty), t.leanTy(ty)))
+	}
+	t.body = fd.Body
+	t.scopeEnd = map[*ast.EmptyStmt]bool{}
+	t.nieTrust = nieScan(fd.Body)
+	t.retNie = true
+	if n := declaresSpecial(t.pk, fd); n != "" {
+		t.fail("%s is declared again", n)
+	}
+	if fd.Type.Params != nil {
+		for _, p := range fd.Type.Params.List {
+			if _, variadic := p.Type.(*ast.Ellipsis); variadic {
+				t.fail("variadic parameter")
+			}
+			if len(p.Names) == 0 {
+				t.fail("unnamed parameter")
+			}
+		}
 	}
 	if fd.Recv != nil && len(fd.Recv.List[0].Names) == 1 {
 		addParam(fd.Recv.List[0].Names[0].Name, fd.Recv.List[0].Type)
@@ -1661,6 +2861,42 @@ func (t *ftrans) translate(fd *ast.FuncDecl, qual string) (def string, sg *fsig)
 	for _, p := range fd.Type.Params.List {
 		for _, n := range p.Names {
 			addParam(n.Name, p.Type)
+		}
+	}
+	stmts := fd.Body.List
+	if t.spec.typeCase != "" {
+		stmts = nil
+		found := false
+		for _, s := range fd.Body.List {
+			ts, ok := s.(*ast.TypeSwitchStmt)
+			if !ok {
+				continue
+			}
+			as, ok := ts.Assign.(*ast.AssignStmt)
+			if !ok || len(as.Lhs) != 1 || ts.Init != nil {
+				continue
+			}
+			for _, c := range ts.Body.List {
+				cc := c.(*ast.CaseClause)
+				if len(cc.List) == 1 && src(t.pk, cc.List[0]) == t.spec.typeCase {
+					if found {
+						t.fail("two cases %s", t.spec.typeCase)
+					}
+					found = true
+					// the switch variable, first parameter
+					n := len(params)
+					delete(drop, as.Lhs[0].(*ast.Ident).Name)
+					addParam(as.Lhs[0].(*ast.Ident).Name, cc.List[0])
+					if len(params) == n+1 {
+						params = append([]string{params[n]}, params[:n]...)
+						ptys = append([]fty{ptys[n]}, ptys[:n]...)
+					}
+					stmts = cc.Body
+				}
+			}
+		}
+		if !found {
+			t.fail("no case %s", t.spec.typeCase)
 		}
 	}
 	var ret fty
@@ -1674,6 +2910,11 @@ func (t *ftrans) translate(fd *ast.FuncDecl, qual string) (def string, sg *fsig)
 			prefix = append(prefix, s)
 		}
 		body = t.block(prefix, "("+strings.Join(lids(t.spec.prefixRet), ", ")+")")
+		for _, v := range t.spec.prefixRet {
+			if ty, ok := t.vars[v]; ok && ty.ln != "" {
+				t.fail("prefix variable %s is shadowed", v)
+			}
+		}
 		for _, v := range t.spec.prefixRet {
 			ty, ok := t.vars[v] // (declared at the top level of the prefix, or a parameter)
 			if !ok {
@@ -1714,38 +2955,47 @@ func (t *ftrans) translate(fd *ast.FuncDecl, qual string) (def string, sg *fsig)
 		} else {
 			ret = fty{k: fkTuple, el: rtys}
 		}
-		body = t.block(fd.Body.List, "")
+		body = t.block(stmts, "")
+	}
+	if t.err == "" && len(t.pending) != 0 {
+		t.fail("internal: panicking operations were not placed")
 	}
 	if t.err != "" {
 		return "", nil
 	}
-	var extras []string
-	for _, ex := range []string{"sqrt", "next"} {
+	// the explicit parameters standing for what is outside the arithmetic: math.Sqrt, math.Nextafter(·, +Inf),
+	// math.Inf(1), the package variable emptyBound — in this order, before the Go parameters
+	var extras, eparams []string
+	for _, ex := range extraOrder {
 		if t.extras[ex] {
 			extras = append(extras, ex)
-			params = append([]string{"(" + ex + " : α → α)"}, params...)
+			eparams = append(eparams, "("+ex+" : "+extraTypes[ex]+")")
 		}
 	}
-	// keep the order sqrt, next
-	if len(extras) == 2 {
-		params[0], params[1] = params[1], params[0]
-	}
+	params = append(eparams, params...)
 	rt := t.leanTy(ret)
 	switch t.spec.panicMode {
 	case "option":
 		rt = "Option (" + rt + ")"
 	case "res":
-		rt = "Res String (" + rt + ")"
+		rt = "Res " + t.resTy() + " (" + rt + ")"
 	}
 	pos := t.pk.fset.Position(fd.Pos())
 	doc := fmt.Sprintf("/-- %s (%s:%d)", strings.TrimPrefix(funcKey(t.pk, fd), ".."), filepath.ToSlash(filepath.Join(t.pk.rel, filepath.Base(pos.Filename))), pos.Line)
 	if t.spec.prefixUntil != "" {
 		doc += fmt.Sprintf(": the statements before the first use of `%s`, returning (%s)", t.spec.prefixUntil, strings.Join(t.spec.prefixRet, ", "))
 	}
+	if t.spec.typeCase != "" {
+		doc += fmt.Sprintf(": the body of `case %s` of the type switch (what precedes the switch is not part of it)", t.spec.typeCase)
+	}
 	doc += " -/"
 	def = fmt.Sprintf("%s\ndef %s %s : %s :=\n%s\n", doc, t.spec.lean, strings.Join(params, " "), rt, indentAll(body, 2))
-	return def, &fsig{qual: qual, params: ptys, ret: ret, extras: extras, fn: t.spec}
+	return def, &fsig{qual: qual, params: ptys, ret: ret, extras: extras, fn: t.spec,
+		nie: isList(ret) && t.retNie && t.spec.prefixUntil == ""}
 }
+
+var extraOrder = []string{"sqrt", "next", "inf", "eb"}
+var extraTypes = map[string]string{"sqrt": "α → α", "next": "α → α", "inf": "α", "eb": "Bound α"}
 
 var floatVariables = "variable {α : Type} [Add α] [Sub α] [Mul α] [Div α] [Neg α] [LT α] [LE α] [DecidableLT α] [DecidableLE α]\n" +
 	"  [BEq α] [Min α] [Max α] [OfNat α 0] [OfNat α 1] [OfNat α 2] [OfNat α 6] [NatCast α]"
@@ -1765,11 +3015,13 @@ func genFloatTies() []*leanFile {
 		l.p("   same explicit instance arguments the hand-written models take; OrbProofs/C*Tie.lean prove each")
 		l.p("   definition equal to the model definition.  Do not edit. -/")
 		l.p("import Orb.Core")
+		l.p("import Orb.LoopForms")
 		for _, im := range sp.imports {
 			l.p("import Generated.%s", im)
 		}
 		l.p("namespace Generated.%s", sp.file)
 		l.p("open Orb Orb.Core")
+		l.p("open Orb.LoopForms (foldlRet foldPairsRet)")
 		l.p("")
 		l.p("%s", floatVariables)
 		l.p("")
@@ -1796,6 +3048,11 @@ func genFloatTies() []*leanFile {
 			f.rel = sp.rel
 			key := f.rel + "|" + f.recv + "|" + f.name
 			goName := strings.TrimPrefix(f.rel+"."+f.recv+"."+f.name, "..")
+			if f.typeCase != "" {
+				// one case of a type switch: not what a call of the function means
+				key += "#" + f.typeCase
+				goName += "[case " + f.typeCase + "]"
+			}
 			pk, fd := findFunc(f.rel, f.recv, f.name)
 			if fd == nil || fd.Body == nil {
 				anchorLost(goName + " (float tie): function not found")
@@ -1822,6 +3079,12 @@ func genFloatTies() []*leanFile {
 				m := map[string]string{}
 				if t.notes["index-total"] {
 					m["index-total"] = "xs[i] is translated as xs.getD i ⟨0,0⟩; Go's bounds check (a panic) is not part of the translation"
+				}
+				if t.notes["range-index"] {
+					m["range-index"] = "for i := range xs runs over List.range xs.length (len(xs) is evaluated once; the body does not assign xs)"
+				}
+				if t.notes["append-value"] {
+					m["append-value"] = "append(xs, v) is xs ++ [v]: lists are values, the sharing of backing arrays is not part of the translation"
 				}
 				sum.Notes[goName] = m
 			}
